@@ -311,11 +311,24 @@ extern int mpt_axis_get(const MPT_STRUCT(axis) *ax, MPT_STRUCT(property) *pr)
 	}
 	/* find property by name */
 	else {
+		/* names taken by mpt_axis_set() that differ from the listed name in the compared characters */
+		static const char * const alias[][2] = {
+			{ "labelpos", "lpos" }, { "label position", "lpos" },
+			{ "titlepos", "tpos" }, { "title position", "tpos" }
+		};
 		const char *elem_name[MPT_arrsize(elem)];
+		const char *name = pr->name;
+		size_t i;
+		for (i = 0; i < MPT_arrsize(alias); i++) {
+			if (!strcasecmp(name, alias[i][0])) {
+				name = alias[i][1];
+				break;
+			}
+		}
 		for (pos = 0; pos < (int) MPT_arrsize(elem); pos++) {
 			elem_name[pos] = elem[pos].name;
 		}
-		if ((pos = mpt_property_match(pr->name, 3, elem_name, pos)) < 0) {
+		if ((pos = mpt_property_match(name, 3, elem_name, pos)) < 0) {
 			return MPT_ERROR(BadArgument);
 		}
 	}
